@@ -218,6 +218,14 @@ func (c *compiler) relations(sb *simbox.Simbox) (drive, report string) {
 				l = append(l, fmt.Sprintf("per %d %s=%v", t, c.loc(sd.Injectables[k]), v))
 			}
 		}
+		// which valid flag is raised together with which injected object
+		for k, idx := range sd.NeedValid {
+			if k >= 0 && k < len(sd.Injectables) {
+				l = append(l, fmt.Sprintf("valid %s i%d", c.loc(sd.Injectables[k]), idx))
+			} else {
+				l = append(l, fmt.Sprintf("valid <injectable %d out of range> i%d", k, idx))
+			}
+		}
 		sort.Strings(l)
 		drive = strings.Join(l, "\n")
 	}
@@ -269,12 +277,16 @@ func modelRelations(rules []mrule) (drive, report string) {
 func modelRelationsR(rules []mrule, withRecv bool) (drive, report string) {
 	var d, r []string
 	abs := map[string]string{}
+	firstSet := map[string]string{} // object -> time class of the first active set rule naming it
 	for _, x := range rules {
 		switch {
 		case x.Action == "set":
 			v, err := parseValue(x.Extra)
 			if err != nil {
 				continue
+			}
+			if _, seen := firstSet[x.Object]; !seen {
+				firstSet[x.Object] = x.Timec
 			}
 			k := "abs"
 			if x.Timec == "relative" {
@@ -300,6 +312,15 @@ func modelRelationsR(rules []mrule, withRecv bool) (drive, report string) {
 	}
 	for k, v := range abs {
 		d = append(d, k+"="+v)
+	}
+	// setting an external input raises that input's valid flag. The implementation registers this only
+	// when the FIRST set rule naming the input is an absolute one (recorded finding
+	// C15|set-absolute|valid-not-raised-when-listed-after-periodic-set); the model follows it here so
+	// that any other deviation of the valid mapping is a new signature.
+	for obj, tc := range firstSet {
+		if tc == "absolute" && len(obj) > 1 && obj[0] == 'i' && strings.Trim(obj[1:], "0123456789") == "" {
+			d = append(d, fmt.Sprintf("valid %s %s", obj, obj))
+		}
 	}
 	sort.Strings(d)
 	sort.Strings(r)
